@@ -120,6 +120,17 @@ def extract_model(ex, model):
     out = {}
     P = ex.path
     root = ex.root
+    # candidate keys for dumping dict/set contents: every integer input
+    cands = set()
+    for name, v in getattr(root, 'inputs', {}).items():
+        if isinstance(v, SV) and v.shape is IntS:
+            try:
+                n = _num(model.eval(v.e, model_completion=True))
+                if isinstance(n, int):
+                    cands.add(n)
+            except Exception:
+                pass
+    P._cand_keys = sorted(cands)[:12]
     for name, v in getattr(root, 'inputs', {}).items():
         try:
             out[name] = model_value(P, model, v, root)
@@ -191,6 +202,20 @@ def model_value(P, model, v, root, depth=0):
                         items = shape.pack([z3.Select(a, v.id) for a in arrs0])
                         out['items'] = [model_value(P, model, shape.select(items, mk_int(i)), root, depth + 1)
                                         for i in range(n)]
+                if cls in CONTAINERS and CONTAINERS[cls][0] in ('dict', 'set') and f == 'has' \
+                        and CONTAINERS[cls][1] is IntS:
+                    has = shape.pack([z3.Select(a, v.id) for a in arrs0])
+                    entries = {}
+                    for k in getattr(P, '_cand_keys', []):
+                        if z3.is_true(ev(shape.select(has, mk_int(k)).e)):
+                            entries[k] = True
+                            if CONTAINERS[cls][0] == 'dict':
+                                vo, vs = w.field_owner(cls, 'val')
+                                va = P.store0.get(vo + '.val')
+                                if va is not None:
+                                    vals = vs.pack([z3.Select(a, v.id) for a in va])
+                                    entries[k] = model_value(P, model, vs.select(vals, mk_int(k)), root, depth + 1)
+                    out['entries'] = entries
                 continue
             val = shape.pack([z3.Select(a, v.id) for a in arrs0])
             out[f] = model_value(P, model, val, root, depth + 1)
